@@ -1384,10 +1384,19 @@ class Data(BaseCartesianData):
             The old component ID.
         new : :class:`~glue.core.component_id.ComponentID`
             The new component ID.
+
+        Raises
+        ------
+           `ValueError`, if ``new`` is already used for another component of
+           this data set.
         """
 
         if new is old:
             return
+
+        if new in self._components:
+            raise ValueError("%s is already used for another component of this "
+                             "data and cannot replace %s" % (new, old))
 
         if new.parent is None:
             new.parent = self
